@@ -365,6 +365,7 @@ type conv struct {
 	bytewise bool
 	burst    bool // the plugin writes all its messages in one write before reading any reply
 	timer    bool // WaitTimer installed and a 5.5 s silence before the first message
+	helper   bool // the plugin leaves a helper process behind that holds its stderr
 	id       int
 }
 
@@ -613,6 +614,7 @@ func main() {
 	wg.Wait()
 	fuzzStreams(r, env, names)
 	afterFailedPhase1(r, env)
+	helperStage(r, env, names[0], convs)
 	if hangs.Load() >= 3 {
 		r.Set("sweep_stopped_early_after_hangs", true)
 	}
@@ -629,7 +631,7 @@ type callResult struct {
 }
 
 func runConv(r *mon.Run, env *plug.Env, name string, c *conv) {
-	sc := &plug.Script{Burst: c.burst}
+	sc := &plug.Script{Burst: c.burst, Helper: c.helper}
 	for i, m := range c.msgs {
 		switch m.term {
 		case "exit":
@@ -707,9 +709,30 @@ func runConv(r *mon.Run, env *plug.Env, name string, c *conv) {
 		done <- call()
 	}()
 	var res callResult
+	limit := 120 * time.Second
+	if c.helper {
+		limit = 30 * time.Second
+	}
 	select {
 	case res = <-done:
-	case <-time.After(120 * time.Second):
+	case <-time.After(limit):
+		if c.helper {
+			// decided on what happened, not on the clock alone: the plugin has
+			// finished (its transcript is written) and the call still waits
+			_, terr := env.Transcript(name)
+			env.StopHelpers()
+			select {
+			case <-done:
+			case <-time.After(20 * time.Second):
+			}
+			if terr != nil {
+				r.Inconclusive("%s: helper conversation neither returned nor left a transcript within 30 s", c.describe())
+				return
+			}
+			hangs.Add(1)
+			r.Violate("hang:helper-holds-stderr:"+terminalOf(c), fmt.Sprintf("%s: the plugin had finished, but the client call did not return while a helper process of the plugin still held the plugin's standard error", c.describe()), replayOf(c))
+			return
+		}
 		// the plugin self-destructs after 30 s, which unblocks any client
 		// that merely waits for it; not returning even then is a hang
 		hangs.Add(1)
@@ -727,7 +750,7 @@ func runConv(r *mon.Run, env *plug.Env, name string, c *conv) {
 		r.Violate("no-transcript:"+desc, fmt.Sprintf("plugin left no transcript (was it started?): %v; call result err=%v", err, res.err), replayOf(c))
 		return
 	}
-	r.Distinct(fmt.Sprintf("%s bytewise=%v burst=%v timer=%v", desc, c.bytewise, c.burst, c.timer))
+	r.Distinct(fmt.Sprintf("%s bytewise=%v burst=%v timer=%v helper=%v", desc, c.bytewise, c.burst, c.timer, c.helper))
 	if c.burst {
 		r.Count("burst_conversations", 1)
 	}
@@ -1189,5 +1212,36 @@ func afterFailedPhase1(r *mon.Run, env *plug.Env) {
 		if r.Evals() == before {
 			r.Inconclusive("afterFailedPhase1: follow-up conversation did not run")
 		}
+	}
+}
+
+// helperStage: real plugins start agents, pinentry programs and shell
+// wrappers that inherit their standard error and may outlive them. The
+// conversation rules do not change: the same conversations, with such a
+// helper left behind, must produce the same transcript and result, and the
+// call must return when the plugin is done, not when the helper is.
+func helperStage(r *mon.Run, env *plug.Env, name string, convs []*conv) {
+	seen := map[string]int{}
+	n := 0
+	for _, c := range convs {
+		if c.timer || c.burst || hangs.Load() >= 3 {
+			continue
+		}
+		cls := fmt.Sprintf("%d/%s/%d", c.machine, terminalOf(c), len(c.msgs))
+		if seen[cls] >= r.Pick(2, 10) {
+			continue
+		}
+		seen[cls]++
+		hc := *c
+		hc.helper = true
+		hc.id = 800000 + n
+		n++
+		env.ResetHelpers()
+		r.Guard("helper:"+hc.describe(), func() { runConv(r, env, name, &hc) })
+		env.StopHelpers()
+		r.Count("conversations_with_a_helper_holding_stderr", 1)
+	}
+	if n == 0 {
+		r.Inconclusive("no conversation was run with a helper process holding the plugin's stderr")
 	}
 }
